@@ -63,6 +63,11 @@ def build():
          ensures=[E('wf', 'final(self).wf()'), E('map', 'final(self)@ == Map::<Index, T>::empty()'),
                   E('events', 'final(self).log() == old(self).log()', 'C12'),
                   E('ev_frame', 'same_ev(&old(self).inner, &final(self).inner)', 'C12')])
+    # Drop for MaskedStorage (what dropping the world runs for every storage): N12, emitted as the inherent method `drop_impl`
+    u.fn(S, ['impl<T: Component> Drop for MaskedStorage<T>', 'fn drop'], props='C04 C08 C19', impl_header='impl<T: Component> MaskedStorage<T>', key='MaskedStorage::Drop::drop',
+         rules=[('N12', r'fn drop\(&mut self\)', 'fn drop_impl(&mut self)')],
+         requires=[E('wf', 'old(self).wf()')],
+         ensures=[E('cleared', 'final(self)@ == Map::<Index, T>::empty() && final(self).wf()', 'C04 C08 C19')])
     u.fn(S, ['impl<T> AnyStorage for MaskedStorage<T>', 'fn drop'], props='C05 C04 C12',
          impl_header='impl<T: Component> MaskedStorage<T>', free=None, key='MaskedStorage::any_drop',
          rules=[('N12', r'fn drop\(', 'fn any_drop('), ('N11', r'for entity in entities \{', 'for entity in entities.iter() {')],
